@@ -1324,7 +1324,7 @@ template <typename FSM> void Explorer<FSM>::perState(const Node& n) {
 	}
 #endif
 #if VT_PLANS
-	if ((props & (P_C06 | P_C14)) && n.activated && n.key.find("|P") == std::string::npos && n.key.find("|M") == std::string::npos && opt.mode == "plans") planScenarios(n);
+	if ((props & (P_C06 | P_C14 | P_C10)) && n.activated && n.key.find("|P") == std::string::npos && n.key.find("|M") == std::string::npos && opt.mode == "plans") planScenarios(n);
 #endif
 #if VT_LOG
 	if (props & P_C16) {
@@ -1453,6 +1453,29 @@ template <typename FSM> void Explorer<FSM>::planScenarios(const Node& n) {
 			Op step; step.type = which ? OP_REACT : OP_UPDATE;
 			exploreStep(m, step, sink, opt.dev);
 			sink.clear();
+		}
+		if ((props & P_C10) && !setup.empty()) {
+			// C10 (a) for plan storage: the same setup + step on instances constructed in memory pre-filled with 0x00 / 0xFF / 0xA5
+			// (tasks with and without payload live in the instance's own storage) must behave identically
+			const unsigned savedProps = props;
+			const unsigned char f0 = opt.fill;
+			for (int which = 0; which < 2; ++which) {
+				Op step; step.type = which ? OP_REACT : OP_UPDATE;
+				Exec ref;
+				props = 0;
+				opt.fill = 0x00; run(m, Step{step, {}}, ref);
+				for (unsigned char f : {(unsigned char) 0xFF, (unsigned char) 0xA5}) {
+					Exec y;
+					opt.fill = f; run(m, Step{step, {}}, y);
+					++compared;
+					++counters["c10_plan_fill_runs"];
+					bool same = ref.keyAfter == y.keyAfter && ref.trace.size() == y.trace.size() && ref.after.active == y.after.active && ref.after.resumable == y.after.resumable;
+					for (size_t i = 0; same && i < ref.trace.size(); ++i) { const TraceEv& a = ref.trace[i]; const TraceEv& b = y.trace[i]; same = a.state == b.state && a.meth == b.meth && a.layer == b.layer && a.a == b.a && a.b == b.b && a.ctl == b.ctl; }
+					if (!same) { props = savedProps; violation("C10", "fill/plan-behaviour-depends-on-prior-memory", "the same plan setup and step behave differently when the instance is constructed in memory pre-filled with 0x" + std::string(f == 0xFF ? "FF" : "A5") + " instead of 0x00 (" + ref.keyAfter + " vs " + y.keyAfter + ")", y); props = 0; }
+				}
+			}
+			opt.fill = f0;
+			props = savedProps;
 		}
 		++counters["c06_plan_scenarios"];
 	}
